@@ -21,15 +21,94 @@ RULE = ("templates whose Conditions section holds 1-8 conditions referring to ea
 ASSUMPTIONS = [
     "pydantic's lenient bool table (true/false/yes/no/on/off/1/0/t/f/y/n, any case) is a leaf: Consts.BOOL_TRUE/BOOL_FALSE, "
     "checked against TypeAdapter(bool) by extra_checks on every run",
-    "the implementation caches untainted condition values; the model does not (cond_val is the specification): their agreement on "
-    "cyclic graphs is covered by the correspondence (all orders for <= 5 conditions), not by a theorem",
+    "the implementation caches untainted condition values: Memo.mget / mall model that algorithm in state-passing style and "
+    "C02_memo_resolver_correct proves it equal to cond_val for all declarations; that Memo.mall IS the code's algorithm is tied by the "
+    "surface '_ConditionResolver.resolve_all + cache' (values and the cache left behind), skipped when the class is gone",
 ]
 MODELLED = ("CFModel.resolve's condition handling (_ConditionResolver) and gating are modelled by Template.cond_val / gate / resolve_resources "
             "and tied by running both on the same templates")
 
 E2E = tplgen.E2ESurface("C02_order_independent / C02_equation / C02_resources_present_iff")
 SEQ = tplgen.SequenceE2ESurface("C02_equation (condition values are a function of the template and THIS call's parameters)")
-SURFACES = {E2E.name: E2E, SEQ.name: SEQ}
+
+
+def memo_inputs(x):
+    """(conditions as CFModel.resolve hands them to its condition resolver, merged parameters, mappings) of a template"""
+    import copy
+    import pycfmodel
+    from pycfmodel.model.cf_model import CFModel
+    m = pycfmodel.parse(copy.deepcopy(x["template"]))
+    extra = dict(copy.deepcopy(x["extra"]) or {})
+    params = {}
+    for key, parameter in (m.Parameters or {}).items():
+        v = parameter.get_ref_value(extra.pop(key, None))
+        if v is not None:
+            params[key] = v
+    merged = {**CFModel.PSEUDO_PARAMETERS, **params, **extra}
+    return m.model_dump().get("Conditions") or {}, merged, m.Mappings or {}
+
+
+def memo_class():
+    """the on-demand condition resolver of cf_model.py, when the code has one of the shape the model follows"""
+    from pycfmodel.model import cf_model
+    cls = getattr(cf_model, "_ConditionResolver", None)
+    if isinstance(cls, type) and issubclass(cls, dict) and callable(getattr(cls, "resolve_all", None)):
+        return cls
+    return None
+
+
+class MemoSurface(core.Surface):
+    """_ConditionResolver(conditions, params, mappings): resolve_all() and the cache it leaves behind, against Memo.mall
+    (the state-passing model C02_memo_resolver_correct is proved about).  Internal class: when the code no longer has it
+    the surface is skipped (the values stay covered by parse(t).resolve(extra))."""
+    name = "_ConditionResolver.resolve_all + cache"
+    theorem = "C02_memo_resolver_correct / C02_cache_sound (the model of the memoising resolver is the code's)"
+
+    def impl(self, x):
+        cls = memo_class()
+        if cls is None:
+            return ("EXC", "EUnavailable", "")
+
+        def run():
+            conds, params, maps = memo_inputs(x)
+            try:
+                r = cls(conds, params, maps)
+            except TypeError:
+                return None
+            vals = r.resolve_all()
+            return {"values": {k: v for k, v in vals.items()}, "cache": [[k, v] for k, v in r.items()]}
+        out = core.impl_call(run)
+        if out == ("OK", None):
+            return ("EXC", "EUnavailable", "")
+        return out
+
+    def model(self, rn, x):
+        try:
+            conds, params, maps = memo_inputs(x)
+        except Exception:
+            return ("EXC", "EUndefined", "")
+        r = core.model_res(rn.call(109, [resgen.to_wire(params), resgen.to_wire(maps), resgen.to_wire(conds)]))
+        if r[0] != "OK":
+            return r
+        vals, cache = r[1]
+        return ("OK", {"values": vals, "cache": cache})
+
+    def agree(self, x, i, m):
+        if i[0] == "EXC" and i[1] == "EUnavailable":
+            return True
+        if i[0] == "EXC" and m[0] == "EXC":
+            return True
+        return super().agree(x, i, m)
+
+    def tags(self, x):
+        return E2E.tags(x) | {"memo"}
+
+    def nontrivial(self, x, i, m):
+        return i[0] == "OK" and refers_to_other(x["template"].get("Conditions") or {}) and len(i[1]["cache"]) < len(i[1]["values"])
+
+
+MEMO = MemoSurface()
+SURFACES = {E2E.name: E2E, SEQ.name: SEQ, MEMO.name: MEMO}
 
 
 def refers_to_other(conds):
@@ -74,13 +153,16 @@ def cases(rng, tier, shard, nshards):
         x = tplgen.gen_condition_template(rng, nc)
         conds = x["template"].get("Conditions") or {}
         if len(conds) <= 5:
-            for order in itertools.permutations(range(len(conds))):
+            for j, order in enumerate(itertools.permutations(range(len(conds)))):
                 yield E2E, permuted(x, order)
+                if j < 6:
+                    yield MEMO, permuted(x, order)
         else:
             for _ in range(12):
                 order = list(range(len(conds)))
                 rng.shuffle(order)
                 yield E2E, permuted(x, order)
+                yield MEMO, permuted(x, order)
         if k % 4 == 0:
             yield E2E, tplgen.gen_template(rng)
         if k % 2 == 0:
